@@ -38,10 +38,10 @@ type OrderCase struct {
 
 func genOrder(t *rapid.T) OrderCase {
 	return OrderCase{
-		Observers: rapid.IntRange(1, 8).Draw(t, "observers"),
-		Snipers:   rapid.IntRange(1, 3).Draw(t, "snipers"),
-		Rounds:    rapid.IntRange(3, 25).Draw(t, "rounds"),
-		Spinners:  rapid.SampledFrom([]int{0, 0, 0, 1, 2}).Draw(t, "spinners"),
+		Observers:  rapid.IntRange(1, 8).Draw(t, "observers"),
+		Snipers:    rapid.IntRange(1, 3).Draw(t, "snipers"),
+		Rounds:     rapid.IntRange(3, 25).Draw(t, "rounds"),
+		Spinners:   rapid.SampledFrom([]int{0, 0, 0, 1, 2}).Draw(t, "spinners"),
 		SlowRegs:   rapid.SampledFrom([]int{0, 20, 40, 40, 100}).Draw(t, "slowregs"),
 		ThrottleUS: rapid.SampledFrom([]int{5, 20, 50}).Draw(t, "throttle"),
 	}
